@@ -5,11 +5,11 @@ from .heapcommon import *
 PID = "C01"
 MANIFEST = {
     "text": "Theorems over a transcription of the heap (cell vector with stable boxes, used prefix / free suffix, handle counts, DFS mark with visited check, swap-sweep, truncate, growth, symbol table), for ANY sizing policy: an invariant (distinct non-null boxes, every pointer of a used cell designates a used cell, free cells carry no handles, handle counts cover the live handles and globals, exact symbol table) holds in EVERY state reachable by ANY finite history of operations (all allocation kinds, interning, clone/drop, accessors, define/undefine, modules, explicit and allocation-triggered collections); every cell reachable before an operation is in use afterwards with the same kind, payload and pointers; every reachable address designates a used cell; mark computes exactly reachability; a collection keeps every reachable cell as the very same record. The pointer fields the model follows are tied to the source by a generated fact (every raw-pointer field of the heap structs is pushed in the mark phase of collect, and nothing else), the algorithms by step-by-step comparison of complete heap snapshots (vector order, boxes up to renaming, counts, table) on generated histories under bursts of forced collections, and evaluator programs run under four collection schedules with an independent reachability monitor inside collect.",
-    "note": "Trusted: Coq kernel; the hand transcription of allocate_internal/collect/GcRef (bound by exact snapshot agreement after every operation); Rust ownership gives callers only live handles (raw pointers, unsafe, forget/leak occur only in src/memory: generated fact); a released Box is never re-issued in the model (stricter than the allocator). Termination of mark is not proved (theorems are stated for runs in which it returns).",
+    "note": "Trusted: Coq kernel; the hand transcription of allocate_internal/collect/GcRef (bound by exact snapshot agreement after every operation); Rust ownership gives callers only live handles (raw pointers, unsafe, forget/leak occur only in src/memory: generated fact); a released Box is never re-issued in the model (stricter than the allocator). Termination of mark is proved (C01_mark_completes: in a heap whose used cells point only at used cells the fuel always suffices and no pointer dangles, hence C01_collection_always_completes in every reachable state).",
     "technique": "Coq invariant proof by induction over operation histories + generated static facts + snapshot-exact differential check + in-collector monitor",
 }
 TARGETS = ["Properties/C01.v", "Heap/Snapshot.v"]
-IMPORTS = ["Heap.HeapModel", "Heap.MarkProofs", "Heap.CollectProofs", "Heap.HeapInv", "Heap.StepInv", "Heap.HistoryProofs", "Heap.StaticProofs", "Generated.Static_gen", "Properties.C01"]
+IMPORTS = ["Heap.HeapModel", "Heap.MarkProofs", "Heap.CollectProofs", "Heap.MarkTermination", "Heap.HeapInv", "Heap.StepInv", "Heap.HistoryProofs", "Heap.StaticProofs", "Generated.Static_gen", "Properties.C01"]
 THEOREMS = [
     ("C01_invariant_in_every_reachable_state", "forall p n ops g, run_ops p (init_gstate n) ops = Some g -> ginv g"),
     ("C01_every_operation_preserves_invariant", "forall p g o g', ginv g -> step p g o = Some g' -> ginv g'"),
@@ -19,6 +19,8 @@ THEOREMS = [
     ("C01_mark_exact", "forall all fuel rs S, mark fuel all rs [] = Some S -> forall a, In a S <-> Reach all rs a"),
     ("C01_marked_fields_cover_pointer_fields", 'forallb (fun f => mem_pair f mark_pushes) edge_fields = true /\\ forallb (fun f => mem_pair f model_edges || pair_eqb f ("root", "cell")) mark_pushes = true /\\ forallb (fun f => mem_pair f edge_fields) model_edges = true'),
     ("C01_teardown_and_confinement", '(Nat.ltb (index_of "modules" memory_fields) (index_of "cells" memory_fields) = true /\\ Nat.ltb (index_of "current_module" memory_fields) (index_of "cells" memory_fields) = true) /\\ raw_pointer_use_outside_memory = []'),
+    ("C01_collection_always_completes", "forall p n ops g, run_ops p (init_gstate n) ops = Some g -> exists h', collect p (gheap g) = Some h'"),
+    ("C01_mark_completes", "forall h, closed h -> mark (mark_fuel h) (cells h) (rev (roots h)) [] <> None"),
 ]
 
 def run(tier, seed):
